@@ -669,3 +669,40 @@ def run_evaluated(ctx, repo, fold, fn, statuses, exectypes, ev):
     ctx.extra["exhaustive"] = True
     ctx.extra["mode"] = "evaluated"
     wrappers_and_enums(ctx, repo, fold)
+
+
+def transition_oracle(repo, fold):
+    """cell(kind name, current status name, exec type value or 0, reported status VALUE) -> True (transit) / None (ignore) / Sym('FIXError') (error),
+    from the folded tables when the function is 'literal tables + canonical lookup', else from the evaluated function (E10)."""
+    fn = repo.func(FN)
+    statuses = fold.enum_members("FOrdStatus")
+    exectypes = fold.enum_members("FExecType")
+
+    class _Q:
+        findings = []
+        assumptions = []
+        extra = {}
+
+        def instance(self, *a, **k):
+            pass
+    try:
+        tables, table_var, params, chain = fold_tables(_Q(), fn, fold)
+        check_resolver(_Q(), fn, table_var, params, chain)
+
+        def cell(kind, cur, ex, ms_val):
+            return lookup(tables[kind][0], statuses[cur], ex, ms_val)
+        return cell
+    except AnalysisError as exc:
+        ev = _Evaluated(None, repo, fold, fn, statuses, exectypes, str(exc))
+        by_val = {v: k for k, v in statuses.items()}
+
+        def cell(kind, cur, ex, ms_val):
+            o = ev.outcome(kind, cur, ex, by_val[ms_val])
+            if o == T:
+                return True
+            if o == I:
+                return None
+            if o == E:
+                return Sym("FIXError")
+            raise KeyError(o)
+        return cell
